@@ -539,18 +539,18 @@ Qed.
 Lemma good_step c w a : good w -> good (fst (step c w a)).
 Proof.
   intros G. destruct a as [ws isobj parent u|obj u|obj ds u|e target|e|es|ws k|ws e]; unfold step.
-  - destruct (usable w parent KGroup && Nat.eqb (ews (E w parent)) ws); [|exact G].
+  - destruct (usable w parent KGroup && Nat.eqb (ews (E w parent)) ws && uspec_ok w u); [|exact G].
     destruct (good_pick w u G) as [G0 Hu0]. destruct (pick_uid w u) as [w0 uid]. simpl in G0, Hu0.
     destruct (good_type w0 ws (if isobj then 2 else 1) G0) as [G1 Hf1].
     destruct (find_or_create_type w0 ws (if isobj then 2 else 1)) as [w1 t]. simpl in G1, Hf1.
     assert (Hu1 : uid < fresh w1) by (rewrite Hf1; exact Hu0).
     pose proof (good_construct c w1 ws (if isobj then KObject else KGroup) (if isobj then 2 else 1) parent uid t [] G1 Hu1) as G2.
     destruct (construct c w1 ws (if isobj then KObject else KGroup) (if isobj then 2 else 1) parent uid t []) as [[w2 o] y]. exact G2.
-  - destruct (usable w obj KObject); [|exact G].
+  - destruct (usable w obj KObject && uspec_ok w u); [|exact G].
     destruct (good_pick w u G) as [G0 Hu0]. destruct (pick_uid w u) as [w0 uid]. simpl in G0, Hu0.
     pose proof (good_construct c w0 (ews (E w obj)) KData 3 obj uid 0 [] G0 Hu0) as G2.
     destruct (construct c w0 (ews (E w obj)) KData 3 obj uid 0 []) as [[w2 o] y]. exact G2.
-  - destruct (usable w obj KObject); [|exact G].
+  - destruct (usable w obj KObject && uspec_ok w u); [|exact G].
     destruct (good_pick w u G) as [G0 Hu0]. destruct (pick_uid w u) as [w0 uid]. simpl in G0, Hu0.
     match goal with |- context [construct c w0 ?a KPG 4 obj uid 0 ?ps] =>
       pose proof (good_construct c w0 a KPG 4 obj uid 0 ps G0 Hu0) as G2;
